@@ -103,7 +103,7 @@ theorem tokStep_inv (orig : List Byte) (len i : Nat) (t : Tok) (hi : TokInv orig
     · rw [if_neg c2]
       by_cases c3 : t.mem.getD (i - 1) 0 = 0
       · rw [if_pos c3]
-        by_cases c4 : t.mem.getD i 0 = 39 ∨ t.mem.getD i 0 = 34
+        by_cases c4 : t.quote = 0 ∧ (t.mem.getD i 0 = 39 ∨ t.mem.getD i 0 = 34)
         · rw [if_pos c4]; exact ⟨hq _, fun _ => h3⟩
         · rw [if_neg c4]
           refine ⟨?_, ?_⟩
@@ -193,7 +193,7 @@ theorem tokStep_rest (orig : List Byte) (i : Nat) (t : Tok)
     · rw [if_neg c2]
       by_cases c3 : t.mem.getD (i - 1) 0 = 0
       · rw [if_pos c3]
-        by_cases c4 : t.mem.getD i 0 = 39 ∨ t.mem.getD i 0 = 34
+        by_cases c4 : t.quote = 0 ∧ (t.mem.getD i 0 = 39 ∨ t.mem.getD i 0 = 34)
         · rw [if_pos c4]; exact ⟨hw, hl, fun _ => h3, fun h => by cases h⟩
         · rw [if_neg c4]
           refine ⟨hk, by simp [hl], ?_, ?_⟩
